@@ -1,3 +1,5 @@
+import DSV.Proofs.Skeleton
+import DSV.Generated.Skeleton
 import DSV.Proofs.Occ
 /-!
 C01 — concurrent commits are serializable: no acknowledged write lost or duplicated.
@@ -62,3 +64,39 @@ example : ((runSched repairedLocal (init fun _ => .metaOnly)
      (1, .fence true), (1, .flip), (1, .release false)]).map (·.flips)) = some [⟨1, 1, 1, 2⟩, ⟨2, 0, 0, 1⟩] := by decide
 
 end DSV.Occ
+
+/-! ## Tie to the current source: the call skeleton of `MetadataManager.commit` (regenerated on every run) -/
+namespace DSV.Src.C01
+open DSV.Skel DSV.Generated.Skel
+
+/-- **occ_enabled_order** — the model's program counter admits the protocol steps in one order only: each step is enabled only
+at the program point its predecessor leaves. -/
+theorem occ_enabled_order (cfg : Occ.Cfg) (s s' : Occ.Sys) (a : Nat) (act : Occ.Act) (h : Occ.step cfg s a act = some s') :
+    match act with
+    | .acquire => ∃ b, s.pc a = .based b
+    | .validate => ∃ b, s.pc a = .locked b
+    | .writeMeta _ => ∃ b c e, s.pc a = .validated b c e
+    | .fence _ => ∃ b n e, s.pc a = .wrote b n e
+    | .flip => ∃ b n e, s.pc a = .fenced b n e
+    | .release _ => (∃ n, s.pc a = .flipped n) ∨ s.pc a = .conflict
+    | _ => True := occ_enabled_order' cfg s s' a act h
+
+/-- **occ_protocol_commits** — that one order is live: a lone committer performing the steps in it reaches `done true`
+with its transaction applied. -/
+theorem occ_protocol_commits :
+    ((Occ.runSched ⟨false, true, true, true⟩ (Occ.init (fun _ => .snap)) ((1, Occ.Act.readBase) :: occProtocol.map (fun x => (1, x)))).map
+      (fun s => (s.pc 1, (Occ.current s).map (·.applied)))) = some (.done true, some [1]) := by decide
+
+/-- **source_commit_follows_protocol** — the CURRENT source of `MetadataManager.commit` performs the protocol steps in exactly
+that order: lock, validation read (both backend branches), metadata file, fencing check, pointer flip, (discard on a clean
+failure), release. -/
+theorem source_commit_follows_protocol :
+    dedupAdj (project occVoc mmCommit) = ["acquire", "validate", "writeMeta", "fence", "flip", "discard", "release"] ∧
+    (dedupAdj (project occVoc mmCommit)).filter (· != "discard") = occProtocol.filterMap occTag := by decide
+
+/-- **source_commit_reads_once_per_branch** — each backend branch validates against ONE read: the source has exactly one
+ETag'd read and one plain refresh in `commit`, and no step is repeated. -/
+theorem source_commit_reads_once_per_branch :
+    project occVoc mmCommit = ["acquire", "validate", "validate", "writeMeta", "fence", "flip", "discard", "release"] := by decide
+
+end DSV.Src.C01
